@@ -91,6 +91,15 @@ class TypeRender:
                 self.bystander = cand
         self.foreign = (not canonical) and prop in self.BYSTANDER_PROPS + ('C08',)
 
+    RAW_NAME_PROPS = ('C14', 'C15', 'C16')
+
+    def nm(self, name):
+        """a custom Debug name / key: in the expansion-level corpora half of the configurations write their names as raw
+        identifiers (`r#Renamed`); every spelling of one request carries the same name, so the groups must still agree"""
+        if self.prop in self.RAW_NAME_PROPS and hpick(2, self.idx, 'rawnames') == 1:
+            return 'r#' + name
+        return name
+
     # ------------------------------------------------------------ spelling
     def sp(self, cls, site, T='', P='', V='', S=None):
         opts = load_spell()[cls]
@@ -175,13 +184,13 @@ class TypeRender:
             dnf = o.get('dnf', 'default')
             bp = self.bound_param(t) if not union else ''
             if dn == 'custom' and dnf == 'default' and not bp and not union:
-                return self.sp('name', 't/Debug/name', V='Renamed')
+                return self.sp('name', 't/Debug/name', V=self.nm('Renamed'))
             if dn == 'off':
                 ps.append(self.sp('name_off_p', 't/Debug/name'))
             elif dn == 'on':
                 ps.append(self.sp('name_on_p', 't/Debug/name'))
             elif dn == 'custom':
-                ps.append(self.sp('name_p', 't/Debug/name', V='Renamed'))
+                ps.append(self.sp('name_p', 't/Debug/name', V=self.nm('Renamed')))
             if dnf in ('true', 'false'):
                 ps.append(self.sp('bool_p', 't/Debug/named_field', P='named_field', V=dnf))
             ps.append(bp)
@@ -256,19 +265,29 @@ class TypeRender:
             dn = var.get('dname', 'default')
             dnf = var.get('dnf', 'default')
             if dn == 'custom' and dnf == 'default':
-                metas.append(self.sp('name', 'v/%d/Debug/name' % v, V='RenamedV%d' % v))
+                metas.append(self.sp('name', 'v/%d/Debug/name' % v, V=self.nm('RenamedV%d' % v)))
             else:
                 if dn == 'off':
                     ps.append(self.sp('name_off_p', 'v/%d/Debug/name' % v))
                 elif dn == 'custom':
-                    ps.append(self.sp('name_p', 'v/%d/Debug/name' % v, V='RenamedV%d' % v))
+                    ps.append(self.sp('name_p', 'v/%d/Debug/name' % v, V=self.nm('RenamedV%d' % v)))
                 if dnf in ('true', 'false'):
                     ps.append(self.sp('bool_p', 'v/%d/Debug/named_field' % v, P='named_field', V=dnf))
                 if ps:
                     metas.append(self.meta('Debug', ps, 'v/%d/Debug' % v))
         if var.get('dflt') and 'Default' in self.traits:
             metas.append('Default')
-        return self.attrs(self.order(metas, 'v/%d/order' % v), 'v/%d/split' % v)
+        text = self.attrs(self.order(metas, 'v/%d/order' % v), 'v/%d/split' % v)
+        if self.foreign and self.cfg['kind'] == 'enum':
+            # foreign attributes on variants too (with or without an educe attribute next to them)
+            how = pick(['', '', 'doc-before', 'allow-after', 'both'], 'foreign-variant', self.idx, v)
+            if how == 'doc-before':
+                text = '#[doc = "v"] ' + text
+            elif how == 'allow-after':
+                text = text + '#[allow(dead_code)] '
+            elif how == 'both':
+                text = '#[allow(dead_code)] ' + text + '#[doc = "v"] '
+        return text
 
     # ------------------------------------------------------------ field-level attributes
     def default_value_text(self, v, i, f):
@@ -290,7 +309,7 @@ class TypeRender:
             if dbg == 'ignore' and not key:
                 metas.append(self.sp('ignore', base + '/Debug/ignore', T='Debug'))
             elif dbg == 'own' and key:
-                metas.append(self.sp('key', base + '/Debug/key', V='k%d' % i))
+                metas.append(self.sp('key', base + '/Debug/key', V=self.nm('k%d' % i)))
             elif dbg != 'own' or key:
                 ps = []
                 if dbg == 'ignore':
@@ -298,7 +317,7 @@ class TypeRender:
                 elif dbg == 'method':
                     ps.append(self.sp('method_p', base + '/Debug/method', V=self.method_path('Debug')))
                 if key:
-                    ps.append(self.sp('key_p', base + '/Debug/key', V='k%d' % i))
+                    ps.append(self.sp('key_p', base + '/Debug/key', V=self.nm('k%d' % i)))
                 metas.append(self.meta('Debug', ps, base + '/Debug'))
         if 'Clone' in self.traits and f.get('clone', 'own') == 'method':
             metas.append('Clone(%s)' % self.sp('method_p', base + '/Clone/method', V=self.method_path('Clone')))
@@ -412,6 +431,16 @@ class TypeRender:
         self.sites = []
         c = self.cfg
         head = '%s%s%s' % ('#[derive(Educe)] ' if derive else '', self.type_attr(), self.repr_attr())
+        if self.foreign:
+            # the item's own surroundings: doc comments and lint attributes before / between / after the derive and educe
+            # attributes, and a visibility
+            how = pick(['', 'doc-first', 'allow-mid', 'both', 'vis'], 'foreign-item', self.idx)
+            if how in ('doc-first', 'both'):
+                head = '#[doc = "t"] ' + head
+            if how in ('allow-mid', 'both'):
+                head = head + '#[allow(dead_code)] '
+            if how in ('vis', 'both'):
+                head = head + 'pub(crate) '
         g = self.generics_decl()
         w = self.where_decl()
         if c['kind'] == 'struct':
@@ -425,9 +454,16 @@ class TypeRender:
             return '%sunion %s%s%s%s' % (head, self.name, g, (' ' + w if w else ''), self.fields_src(1, var))
         vs = []
         for v, var in enumerate(c['variants'], 1):
-            d = '' if var.get('disc', NO_DISC) == NO_DISC else ' = %s' % var['disc']
+            d = '' if var.get('disc', NO_DISC) == NO_DISC else ' = %s' % self.disc_text(v, int(var['disc']))
             vs.append('%sV%d%s%s' % (self.variant_attr(v, var), v, self.fields_src(v, var), d))
         return '%senum %s%s%s { %s }' % (head, self.name, g, (' ' + w if w else ''), ', '.join(vs))
+
+    def disc_text(self, v, n):
+        """an explicit discriminant, written as a decimal, hexadecimal or separated literal (the same integer)"""
+        if self.canonical:
+            return str(n)
+        sign, m = ('-' if n < 0 else ''), abs(n)
+        return [str(n), '%s0x%X' % (sign, m), '%s0_%d' % (sign, m)][hpick(3, self.idx, 'disc', v)]
 
     def extra_items(self):
         """items rendered after the type (on the same line)"""
